@@ -18,7 +18,7 @@ Print Assumptions C12_refines_map.
 (* every request of a statement goes to the session bound to the record's connection name *)
 Theorem C12_routing_statement :
   forall substitute sc st w l cs c sql e r sql' ev st1 w1 id,
-    may_substitute substitute st true sql = inl sql' ->
+    may_substitute substitute st true sql = SubOk sql' ->
     get_conn sc st w c = (ev, st1, w1, Some id) ->
     should_skip (labels st1) (engine sc) cs = false ->
     exists d w2, apply_record substitute sc st w (RStatement l cs c sql e r) =
@@ -29,7 +29,7 @@ Print Assumptions C12_routing_statement.
 
 Theorem C12_routing_query :
   forall substitute sc st w l cs c sql e r sql' ev st1 w1 id,
-    may_substitute substitute st true sql = inl sql' ->
+    may_substitute substitute st true sql = SubOk sql' ->
     get_conn sc st w c = (ev, st1, w1, Some id) ->
     should_skip (labels st1) (engine sc) cs = false ->
     exists d w2, apply_record substitute sc st w (RQuery l cs c sql e r) =
